@@ -11,7 +11,7 @@ from . import model, pattern
 from .util import *
 
 
-def _seq(v):
+def _seq(P, v):
     v = tgt(v)
     # SliceTokenSource { slice } / &str
     if isinstance(v, Agg) and len(v.f) == 1:
@@ -23,11 +23,9 @@ def _seq(v):
         cur = []
         for b in bs:
             cur.append(b)
-            if isinstance(b, int) and b == 10:
+            if P.branch(byte_eq(b, 10)):
                 out.append(mk_str(cur))
                 cur = []
-            elif not isinstance(b, int):
-                raise Unsupported('symbolic newline in imara line tokenizer')
         if cur:
             out.append(mk_str(cur))
         return out
@@ -36,7 +34,7 @@ def _seq(v):
 
 @model('imara_diff::InternedInput::new')
 def m_interned_new(P, c, args, dt):
-    return Opaque('InternedInput', (_seq(args[0]), _seq(args[1])))
+    return Opaque('InternedInput', (_seq(P, args[0]), _seq(P, args[1])))
 
 
 def lcs_hunks(P, old, new):
